@@ -1,14 +1,657 @@
-//! C09 harness (stub).
+//! C09: index construction is independent of scheduling and of build increments.
+//!
+//! Request lines
+//!   case <i> coll <d0>;<d1>;…      d_i = comma separated ascending hashes (`-` = empty dataset)
+//!   case <i> codec                 no collection (codec / merge-operator requests)
+//!   build <threads> <seed> <jit>   RevIndex::create inside a rayon pool of <threads>; jit=1 installs a
+//!                                  seeded yield / micro-sleep callback at every write point
+//!                                  -> `H <h:ids;…> P <ids>` (scan of HASHES, PROCESSED)
+//!   membuild <threads>             mem RevIndex::new_with_sigs in a pool -> `H <h:ids;…>` (per-hash probes)
+//!   extend <split> direct|reopen <threads> <seed>   create(C[..split]) then update(C) -> scan
+//!   reject <split> <k> hashes|name create(C[..split]) then update(C with record k changed) -> `err …`
+//!   truncate <split> <m>           create(C[..split]) then update(C[..m]), m < split -> scan
+//!   reduce <polish tree>           N = node, I = identity, L<d> = leaf; h2c_* wrappers -> `<h:ids;…> cols=ok|bad`
+//!   mergedb <tokens>               real merge operator through a scratch RocksDB: P<ids> put (first
+//!                                  only), L<ids> merge operand, F flush, C compact -> `<variant>:<ids>`
+//!   mergetree <ex> <polish forest> G<n> group of n trees, N<n> partial merge of n trees, L<ids> leaf;
+//!                                  evaluated with the codec/union wrappers -> `<variant>:<ids>:<bytes>`
+//!   enc <set>                      set = l:<ids> | r:<start>:<step>:<count> -> `<len> <fnv64> [<hex if short>]`
+//!   encok <set>                    the two roaring assumptions + round trip -> ok
+//!   dec <hex>                      from_slice of raw bytes (length 1 / 8) -> `<variant>:<ids>`
+//!   union <a> <b>  /  ext <a> <ids>   Datasets::union / Extend -> `<variant>:<ids>`
+use sourmash::index::revindex::mem_revindex;
+use sourmash::index::revindex::verif_hooks as vh;
+use sourmash::index::revindex::{RevIndex, RevIndexOps};
+use sourmash::selection::Selection;
+use sourmash::signature::Signature;
+use std::collections::BTreeMap;
+use std::path::Path;
+use std::sync::atomic::{AtomicU64, Ordering};
+use verif_harness::index_util::*;
 use verif_harness::*;
 
-fn gen(_a: &Args) {
-    let mut o = Out::new();
-    o.case("stub");
+// ------------------------------------------------------------------------------------ generator
+
+fn show_coll(c: &[Vec<u64>]) -> String {
+    c.iter().map(|d| show_nats(d.iter().copied())).collect::<Vec<_>>().join(";")
 }
 
-fn step(_: &mut (), ws: &[&str]) -> String {
+fn universe(r: &mut Rng) -> Vec<u64> {
+    let n = r.range(3, 24) as usize;
+    let mut u: Vec<u64> = (0..n)
+        .map(|i| match r.below(10) {
+            0 => u64::MAX - r.below(4),
+            1 => (1u64 << 63) + r.below(8),
+            2 => r.bits(64),
+            _ => i as u64 * 3 + r.below(3),
+        })
+        .collect();
+    u.sort_unstable();
+    u.dedup();
+    u
+}
+
+fn rand_coll(r: &mut Rng, max_d: u64) -> Vec<Vec<u64>> {
+    let u = universe(r);
+    let nd = r.range(1, max_d) as usize;
+    let mut c: Vec<Vec<u64>> = vec![];
+    for i in 0..nd {
+        if i > 0 && r.chance(1, 6) {
+            let j = r.below(i as u64) as usize;
+            c.push(c[j].clone());
+            continue;
+        }
+        if r.chance(1, 10) {
+            c.push(vec![]);
+            continue;
+        }
+        let dens = r.range(1, 4);
+        let mut d: Vec<u64> = u.iter().copied().filter(|_| r.chance(dens, 5)).collect();
+        if d.is_empty() {
+            d.push(*r.pick(&u));
+        }
+        c.push(d);
+    }
+    c
+}
+
+fn sorted_set(r: &mut Rng, n: usize, bound: u64) -> Vec<u64> {
+    let mut v: Vec<u64> = (0..n).map(|_| r.below(bound)).collect();
+    v.sort_unstable();
+    v.dedup();
+    v
+}
+
+fn rand_rtree(r: &mut Rng, leaves: &[usize], shape: u64, out: &mut Vec<String>) {
+    if leaves.is_empty() {
+        out.push("I".into());
+        return;
+    }
+    if r.chance(1, 12) {
+        // rayon may feed the identity anywhere
+        out.push("N".into());
+        if r.chance(1, 2) {
+            out.push("I".into());
+            rand_rtree(r, leaves, shape, out);
+        } else {
+            rand_rtree(r, leaves, shape, out);
+            out.push("I".into());
+        }
+        return;
+    }
+    if leaves.len() == 1 {
+        out.push(format!("L{}", leaves[0]));
+        return;
+    }
+    let k = match shape {
+        0 => leaves.len() - 1, // left-deep
+        1 => 1,                // right-deep
+        2 => leaves.len() / 2, // balanced
+        _ => r.range(1, leaves.len() as u64 - 1) as usize,
+    };
+    out.push("N".into());
+    rand_rtree(r, &leaves[..k], shape, out);
+    rand_rtree(r, &leaves[k..], shape, out);
+}
+
+fn shuffle<T>(r: &mut Rng, v: &mut [T]) {
+    for i in (1..v.len()).rev() {
+        let j = r.below(i as u64 + 1) as usize;
+        v.swap(i, j);
+    }
+}
+
+fn rand_mtree(r: &mut Rng, depth: u32, id_bound: u64, out: &mut Vec<String>) {
+    if depth == 0 || r.chance(3, 5) {
+        let n = match r.below(8) {
+            0 => 0,
+            1..=4 => 1,
+            _ => r.range(2, 6) as usize,
+        };
+        out.push(format!("L{}", show_nats(sorted_set(r, n, id_bound))));
+    } else {
+        let n = r.range(0, 4);
+        out.push(format!("N{}", n));
+        for _ in 0..n {
+            rand_mtree(r, depth - 1, id_bound, out);
+        }
+    }
+}
+
+fn gen(a: &Args) {
+    let mut r = Rng::new(a.seed);
+    let mut o = Out::new();
+    let thorough = a.tier == "thorough";
+    let threads = [1u64, 2, 3, 4, 8, 16];
+
+    // --- codec, union, extend, merge trees through the wrappers (cheap)
+    o.case("codec");
+    for ids in ["-", "0", "1", "4294967295", "0,1", "0,4294967295", "65535,65536", "12346,12347"] {
+        o.op(&format!("enc l:{}", ids));
+        o.op(&format!("encok l:{}", ids));
+    }
+    // container boundaries, array/bitmap limit (4096), sizes 2..5000, ids up to 2^32-1
+    for (s, st, c) in [
+        (0u64, 1u64, 4096u64), (0, 1, 4097), (0, 1, 5000), (65000, 1, 5000), (0, 13, 5000), (0, 16, 4097),
+        (4294962296, 1, 5000), (4294967294, 1, 2), (65535, 65536, 300), (0, 65536, 5000), (1, 858993, 5000),
+        (61440, 1, 4096), (61439, 1, 4098), (0, 2, 4097), (3, 7, 2), (0, 0, 1),
+    ] {
+        o.op(&format!("enc r:{}:{}:{}", s, st, c));
+        o.op(&format!("encok r:{}:{}:{}", s, st, c));
+    }
+    let n = if thorough { 6000 } else { 500 };
+    for i in 0..n {
+        let k = match r.below(6) {
+            0 => r.range(2, 5),
+            1 => r.range(2, 64),
+            2 => r.range(64, 400),
+            _ => r.range(2, 40),
+        } as usize;
+        let bound = *r.pick(&[8u64, 70, 70_000, 200_000, 1 << 20, 1 << 32]);
+        let s = sorted_set(&mut r, k, bound);
+        o.op(&format!("enc l:{}", show_nats(s.iter().copied())));
+        o.op(&format!("encok l:{}", show_nats(s.iter().copied())));
+        if i % 4 == 0 {
+            let (st, step, cnt) = (r.bits(32), r.range(1, 70_000), r.range(2, 5000));
+            let cnt = cnt.min(((1u64 << 32) - 1 - st) / step + 1).max(1);
+            o.op(&format!("enc r:{}:{}:{}", st, step, cnt));
+            o.op(&format!("encok r:{}:{}:{}", st, step, cnt));
+        }
+    }
+    // raw decodes of the two reserved lengths
+    for _ in 0..(if thorough { 2000 } else { 200 }) {
+        let len = if r.chance(1, 4) { 1 } else { 8 };
+        let bs: Vec<u8> = (0..len).map(|_| if r.chance(1, 3) { 0 } else { r.below(256) as u8 }).collect();
+        o.op(&format!("dec {}", hex(&bs)));
+    }
+    o.op("dec 2a");
+    o.op("dec 3a30000000000000"); // an empty roaring bitmap is 8 bytes: read back as Unique(12346)
+    o.case("setops");
+    let n = if thorough { 40_000 } else { 3000 };
+    for _ in 0..n {
+        let bound = *r.pick(&[4u64, 10, 100_000, 1 << 32]);
+        let ka = *r.pick(&[0usize, 1, 1, 2, 3, 6]);
+        let kb = *r.pick(&[0usize, 1, 1, 2, 3, 6]);
+        let a = sorted_set(&mut r, ka, bound);
+        let b = sorted_set(&mut r, kb, bound);
+        o.op(&format!("union {} {}", show_nats(a.iter().copied()), show_nats(b.iter().copied())));
+        // extend takes an arbitrary (unsorted, repeating) iterator
+        let ke = *r.pick(&[0usize, 1, 1, 1, 2, 3, 4, 7]);
+        let e: Vec<u64> = (0..ke).map(|_| r.below(bound)).collect();
+        o.op(&format!("ext {} {}", show_nats(a.iter().copied()), show_nats(e.iter().copied())));
+    }
+    o.op("ext - 1,2,3,4");
+    o.case("mergetree");
+    let n = if thorough { 30_000 } else { 2500 };
+    for _ in 0..n {
+        let bound = *r.pick(&[3u64, 6, 40, 100_000]);
+        let ex = match r.below(4) {
+            0 => "none".to_string(),
+            _ => {
+                let k = *r.pick(&[0usize, 1, 2, 4]);
+                show_nats(sorted_set(&mut r, k, bound))
+            }
+        };
+        let mut toks = vec![];
+        let ng = r.range(0, 3);
+        for _ in 0..ng {
+            let nt = r.range(0, 4);
+            toks.push(format!("G{}", nt));
+            for _ in 0..nt {
+                rand_mtree(&mut r, 3, bound, &mut toks);
+            }
+        }
+        o.op(&format!("mergetree {} {}", ex, toks.join(" ")));
+    }
+
+    // --- the real merge operator inside RocksDB, operands grouped by flush / compaction
+    let n = if thorough { 600 } else { 40 };
+    for _ in 0..n {
+        o.case("codec");
+        for _ in 0..3 {
+            let bound = *r.pick(&[3u64, 8, 100_000]);
+            let mut toks = vec![];
+            if r.chance(1, 3) {
+                let k = *r.pick(&[0usize, 1, 3]);
+                toks.push(format!("P{}", show_nats(sorted_set(&mut r, k, bound))));
+            }
+            let nops = r.range(0, 14);
+            for _ in 0..nops {
+                let k = *r.pick(&[0usize, 1, 1, 1, 1, 2, 4]);
+                toks.push(format!("L{}", show_nats(sorted_set(&mut r, k, bound))));
+                match r.below(6) {
+                    0 => toks.push("F".into()),
+                    1 => toks.push("C".into()),
+                    2 => {
+                        toks.push("F".into());
+                        toks.push("C".into());
+                    }
+                    _ => {}
+                }
+            }
+            o.op(&format!("mergedb {}", toks.join(" ")));
+        }
+    }
+
+    // --- builds under schedules
+    let n = if thorough { 400 } else { 26 };
+    for ci in 0..n {
+        let c = rand_coll(&mut r, 8);
+        o.case(&format!("coll {}", show_coll(&c)));
+        let nd = c.len();
+        // three disk builds: sequential reference pool, and two parallel ones with jitter
+        o.op(&format!("build 1 {} 0", r.bits(16)));
+        let t = *r.pick(&threads);
+        o.op(&format!("build {} {} 1", t, r.bits(16)));
+        if ci % 2 == 0 {
+            o.op(&format!("build {} {} {}", threads[(ci / 2) % 6], r.bits(16), r.below(2)));
+        }
+        o.op(&format!("membuild {}", r.pick(&threads)));
+        // reduction trees of the in-memory reducer
+        for shape in 0..4u64 {
+            let mut leaves: Vec<usize> = (0..nd).collect();
+            if shape > 0 || r.chance(1, 2) {
+                shuffle(&mut r, &mut leaves);
+            }
+            let mut toks = vec![];
+            rand_rtree(&mut r, &leaves, shape, &mut toks);
+            o.op(&format!("reduce {}", toks.join(" ")));
+        }
+        // increments
+        if nd >= 1 {
+            let split = r.range(0, nd as u64);
+            let mode = if r.chance(1, 2) { "direct" } else { "reopen" };
+            o.op(&format!("extend {} {} {} {}", split, mode, r.pick(&threads), r.bits(16)));
+        }
+        if nd >= 2 && ci % 2 == 1 {
+            let split = r.range(1, nd as u64);
+            let k = r.below(split);
+            let kind = if r.chance(1, 2) { "hashes" } else { "name" };
+            o.op(&format!("reject {} {} {}", split, k, kind));
+        }
+        if nd >= 2 && ci % 4 == 2 {
+            let split = r.range(2, nd as u64);
+            let m = r.range(1, split - 1);
+            o.op(&format!("truncate {} {}", split, m));
+        }
+    }
+    // more reduction trees on larger collections (cheap, no RocksDB)
+    let n = if thorough { 4000 } else { 300 };
+    for _ in 0..n {
+        let c = rand_coll(&mut r, 8);
+        o.case(&format!("coll {}", show_coll(&c)));
+        for _ in 0..4 {
+            let mut leaves: Vec<usize> = (0..c.len()).collect();
+            shuffle(&mut r, &mut leaves);
+            let mut toks = vec![];
+            let shape = r.below(4);
+            rand_rtree(&mut r, &leaves, shape, &mut toks);
+            o.op(&format!("reduce {}", toks.join(" ")));
+        }
+    }
+}
+
+// ------------------------------------------------------------------------------------ exec
+
+#[derive(Default)]
+struct St {
+    coll: Vec<Vec<u64>>,
+}
+
+fn ids32(s: &str) -> Vec<u32> {
+    parse_nats(s).into_iter().map(|x| x as u32).collect()
+}
+
+fn show_ds(d: &vh_ds::D) -> String {
+    let mut ids: Vec<u32> = d.clone().into_iter().collect();
+    ids.sort_unstable();
+    format!("{}:{}", vh::datasets_variant(d), show_nats(ids.iter().map(|x| *x as u64)))
+}
+mod vh_ds {
+    pub type D = sourmash::index::revindex::Datasets;
+}
+
+fn parse_set(s: &str) -> Vec<u32> {
+    if let Some(l) = s.strip_prefix("l:") {
+        ids32(l)
+    } else {
+        let p: Vec<u64> = s[2..].split(':').map(|x| x.parse().unwrap()).collect();
+        (0..p[2]).map(|i| (p[0] + i * p[1]) as u32).collect()
+    }
+}
+
+fn fnv64(bs: &[u8]) -> u64 {
+    let mut h: u64 = 14695981039346656037;
+    for b in bs {
+        h ^= *b as u64;
+        h = h.wrapping_mul(1099511628211);
+    }
+    h
+}
+
+fn show_bytes(bs: &[u8]) -> String {
+    if bs.len() <= 64 {
+        format!("{} {} {}", bs.len(), fnv64(bs), hex(bs))
+    } else {
+        format!("{} {}", bs.len(), fnv64(bs))
+    }
+}
+
+static JSEED: AtomicU64 = AtomicU64::new(0);
+fn jitter(_kind: u8, d: u32, n: u64) {
+    let c = JSEED.fetch_add(0x9E37_79B9_7F4A_7C15, Ordering::Relaxed);
+    let mut x = c ^ (d as u64).wrapping_mul(0xD6E8_FEB8_6659_FD93) ^ n;
+    x ^= x >> 29;
+    x = x.wrapping_mul(0xBF58_476D_1CE4_E5B9);
+    x ^= x >> 32;
+    match x % 5 {
+        0 | 1 => std::thread::yield_now(),
+        2 => std::thread::sleep(std::time::Duration::from_micros((x >> 8) % 40)),
+        _ => {}
+    }
+}
+
+fn in_pool<T: Send>(threads: usize, f: impl FnOnce() -> T + Send) -> T {
+    rayon::ThreadPoolBuilder::new().num_threads(threads).build().unwrap().install(f)
+}
+
+fn sigs_of(c: &[Vec<u64>]) -> Vec<Signature> {
+    c.iter().enumerate().map(|(i, d)| make_sig(&format!("d{}", i), d, None, 1)).collect()
+}
+
+fn scan(dir: &Path) -> String {
+    let db = vh::open_scratch_db(dir);
+    let cf = db.cf_handle(vh::HASHES_CF).unwrap();
+    let mut h = BTreeMap::new();
+    for item in db.iterator_cf(&cf, rocksdb::IteratorMode::Start) {
+        let (k, v) = item.unwrap();
+        let key = u64::from_le_bytes(k[..8].try_into().unwrap());
+        let mut ids: Vec<u32> = vh::datasets_from_slice(&v).unwrap().into_iter().collect();
+        ids.sort_unstable();
+        h.insert(key, ids);
+    }
+    let cfm = db.cf_handle(vh::METADATA_CF).unwrap();
+    let p = db.get_cf(&cfm, vh::PROCESSED_KEY).unwrap().map(|v| {
+        let mut ids: Vec<u32> = vh::datasets_from_slice(&v).unwrap().into_iter().collect();
+        ids.sort_unstable();
+        ids
+    });
+    format!(
+        "H {} P {}",
+        show_table(&h),
+        match p {
+            Some(p) => show_nats(p.iter().map(|x| *x as u64)),
+            None => "absent".into(),
+        }
+    )
+}
+
+fn show_table(h: &BTreeMap<u64, Vec<u32>>) -> String {
+    if h.is_empty() {
+        "-".into()
+    } else {
+        h.iter()
+            .map(|(k, ids)| format!("{}:{}", k, show_nats(ids.iter().map(|x| *x as u64))))
+            .collect::<Vec<_>>()
+            .join(";")
+    }
+}
+
+fn with_jitter<T>(seed: u64, on: bool, f: impl FnOnce() -> T) -> T {
+    if on {
+        JSEED.store(seed, Ordering::Relaxed);
+        vh::set_point_callback(Some(jitter));
+    }
+    let r = f();
+    vh::set_point_callback(None);
+    r
+}
+
+/// reduction tree in Polish notation over the hook wrappers
+fn eval_rtree(toks: &[&str], pos: &mut usize, coll: &[Vec<u64>]) -> vh::Reducible {
+    let t = toks[*pos];
+    *pos += 1;
+    if t == "I" {
+        vh::h2c_new()
+    } else if t == "N" {
+        let a = eval_rtree(toks, pos, coll);
+        let b = eval_rtree(toks, pos, coll);
+        vh::h2c_reduce(a, b)
+    } else {
+        let d: usize = t[1..].parse().unwrap();
+        let mut r = vh::h2c_new();
+        // mem map_hashes_colors: add_to only for a non-empty sketch (an empty one is filtered out)
+        if !coll[d].is_empty() {
+            vh::h2c_add_to(&mut r, d as u32, coll[d].clone());
+        }
+        r
+    }
+}
+
+fn merge_like(existing: Option<&[u8]>, ops: &[Vec<u8>]) -> Vec<u8> {
+    // body of merge_datasets over the exported codec / union
+    let mut d = existing.and_then(vh::datasets_from_slice).unwrap_or_default();
+    for op in ops {
+        vh::datasets_union(&mut d, vh::datasets_from_slice(op).unwrap());
+    }
+    vh::datasets_as_bytes(&d).unwrap()
+}
+
+fn eval_mtree(toks: &[&str], pos: &mut usize) -> Vec<u8> {
+    let t = toks[*pos];
+    *pos += 1;
+    if let Some(ids) = t.strip_prefix('L') {
+        vh::datasets_as_bytes(&vh::datasets_new(&ids32(ids))).unwrap()
+    } else {
+        let n: usize = t[1..].parse().unwrap();
+        let ops: Vec<Vec<u8>> = (0..n).map(|_| eval_mtree(toks, pos)).collect();
+        merge_like(None, &ops)
+    }
+}
+
+fn step(st: &mut St, ws: &[&str]) -> String {
     match ws[0] {
-        "case" => "ok".into(),
+        "case" => {
+            st.coll = if ws.get(2) == Some(&"coll") {
+                ws[3].split(';').map(parse_nats).collect()
+            } else {
+                vec![]
+            };
+            "ok".into()
+        }
+        "build" => {
+            let (threads, seed, jit): (usize, u64, bool) =
+                (ws[1].parse().unwrap(), ws[2].parse().unwrap(), ws[3] == "1");
+            let tmp = scratch_dir();
+            let paths = write_sig_files(&tmp.path().join("sigs"), &sigs_of(&st.coll));
+            let dir = tmp.path().join("idx");
+            let coll = fs_collection(&paths);
+            let r = with_jitter(seed, jit, || in_pool(threads, || RevIndex::create(&dir, coll, false)));
+            match r {
+                Ok(idx) => {
+                    drop(idx);
+                    scan(&dir)
+                }
+                Err(e) => format!("err {:?}", e),
+            }
+        }
+        "membuild" => {
+            let threads: usize = ws[1].parse().unwrap();
+            let sigs = sigs_of(&st.coll);
+            let sel = Selection::builder().ksize(KSIZE).scaled(1).build();
+            let idx = in_pool(threads, || mem_revindex::RevIndex::new_with_sigs(sigs, &sel, 0, None));
+            match idx {
+                Ok(idx) => {
+                    let mut all: Vec<u64> = st.coll.iter().flatten().copied().collect();
+                    all.sort_unstable();
+                    all.dedup();
+                    let mut h = BTreeMap::new();
+                    for x in all {
+                        let c = idx.counter_for_query(&make_mh(&[x], None, 1));
+                        let mut ids: Vec<u32> = c.keys().copied().collect();
+                        ids.sort_unstable();
+                        assert!(c.values().all(|v| *v == 1));
+                        if !ids.is_empty() {
+                            h.insert(x, ids);
+                        }
+                    }
+                    format!("H {}", show_table(&h))
+                }
+                Err(e) => format!("err {:?}", e),
+            }
+        }
+        "extend" | "reject" | "truncate" => {
+            let split: usize = ws[1].parse().unwrap();
+            let tmp = scratch_dir();
+            let mut sigs = sigs_of(&st.coll);
+            let paths = write_sig_files(&tmp.path().join("sigs"), &sigs);
+            let dir = tmp.path().join("idx");
+            let (threads, seed, reopen) = if ws[0] == "extend" {
+                (ws[3].parse().unwrap(), ws[4].parse().unwrap(), ws[2] == "reopen")
+            } else {
+                (2usize, 0u64, true)
+            };
+            let idx = in_pool(threads, || RevIndex::create(&dir, fs_collection(&paths[..split]), false)).unwrap();
+            let newcoll = match ws[0] {
+                "extend" => fs_collection(&paths),
+                "truncate" => fs_collection(&paths[..ws[2].parse::<usize>().unwrap()]),
+                _ => {
+                    let k: usize = ws[2].parse().unwrap();
+                    sigs[k] = if ws[3] == "hashes" {
+                        let mut hs = st.coll[k].clone();
+                        hs.push(999_983);
+                        hs.sort_unstable();
+                        hs.dedup();
+                        if hs == st.coll[k] {
+                            hs.pop();
+                        }
+                        make_sig(&format!("d{}", k), &hs, None, 1)
+                    } else {
+                        make_sig(&format!("other{}", k), &st.coll[k], None, 1)
+                    };
+                    let p2 = write_sig_files(&tmp.path().join("sigs2"), &sigs);
+                    fs_collection(&p2)
+                }
+            };
+            let idx = if reopen {
+                drop(idx);
+                RevIndex::open(&dir, false, None).unwrap()
+            } else {
+                idx
+            };
+            let r = with_jitter(seed, ws[0] == "extend", || in_pool(threads, || idx.update(newcoll)));
+            match r {
+                Ok(idx) => {
+                    drop(idx);
+                    scan(&dir)
+                }
+                Err(e) => format!("err {:?}", e),
+            }
+        }
+        "reduce" => {
+            let mut pos = 1;
+            let r = eval_rtree(ws, &mut pos, &st.coll);
+            let dump = vh::h2c_dump(&r);
+            let mut used: Vec<&Vec<u32>> = dump.iter().map(|(_, ids)| ids).collect();
+            used.sort();
+            used.dedup();
+            let h: BTreeMap<u64, Vec<u32>> = dump.iter().cloned().collect();
+            format!("{} cols={}", show_table(&h), if vh::h2c_ncolors(&r) >= used.len() { "ok" } else { "bad" })
+        }
+        "mergedb" => {
+            let tmp = scratch_dir();
+            let db = vh::open_scratch_db(tmp.path());
+            let cf = db.cf_handle(vh::HASHES_CF).unwrap();
+            let key = 7u64.to_le_bytes();
+            for t in &ws[1..] {
+                match &t[..1] {
+                    "P" => db
+                        .put_cf(&cf, key, vh::datasets_as_bytes(&vh::datasets_new(&ids32(&t[1..]))).unwrap())
+                        .unwrap(),
+                    "L" => db
+                        .merge_cf(&cf, key, vh::datasets_as_bytes(&vh::datasets_new(&ids32(&t[1..]))).unwrap())
+                        .unwrap(),
+                    "F" => db.flush_cf(&cf).unwrap(),
+                    _ => db.compact_range_cf(&cf, None::<&[u8]>, None::<&[u8]>),
+                }
+            }
+            match db.get_cf(&cf, key).unwrap() {
+                Some(v) => show_ds(&vh::datasets_from_slice(&v).unwrap()),
+                None => "absent".into(),
+            }
+        }
+        "mergetree" => {
+            let mut cur: Option<Vec<u8>> = if ws[1] == "none" {
+                None
+            } else {
+                Some(vh::datasets_as_bytes(&vh::datasets_new(&ids32(ws[1]))).unwrap())
+            };
+            let mut pos = 2;
+            while pos < ws.len() {
+                let n: usize = ws[pos][1..].parse().unwrap();
+                pos += 1;
+                let ops: Vec<Vec<u8>> = (0..n).map(|_| eval_mtree(ws, &mut pos)).collect();
+                cur = Some(merge_like(cur.as_deref(), &ops));
+            }
+            match cur {
+                Some(v) => format!("{}:{}", show_ds(&vh::datasets_from_slice(&v).unwrap()), show_bytes(&v).replace(' ', "/")),
+                None => "absent".into(),
+            }
+        }
+        "enc" => {
+            let ids = parse_set(ws[1]);
+            show_bytes(&vh::datasets_as_bytes(&vh::datasets_new(&ids)).unwrap())
+        }
+        "encok" => {
+            let ids = parse_set(ws[1]);
+            let d = vh::datasets_new(&ids);
+            let bs = vh::datasets_as_bytes(&d).unwrap();
+            let back = vh::datasets_from_slice(&bs).unwrap();
+            let want_variant = ids.len().min(2) as u8;
+            let len_ok = ids.len() < 2 || (bs.len() != 1 && bs.len() != 8);
+            let back_ids: Vec<u32> = back.clone().into_iter().collect();
+            if len_ok
+                && back_ids == ids
+                && vh::datasets_variant(&back) == want_variant
+                && vh::datasets_len(&back) == ids.len()
+                && ids.iter().all(|i| vh::datasets_contains(&back, *i))
+            {
+                "ok".into()
+            } else {
+                format!("bad len={} variant={} n={}", bs.len(), vh::datasets_variant(&back), back_ids.len())
+            }
+        }
+        "dec" => show_ds(&vh::datasets_from_slice(&unhex(ws[1])).unwrap()),
+        "union" => {
+            let mut a = vh::datasets_new(&ids32(ws[1]));
+            vh::datasets_union(&mut a, vh::datasets_new(&ids32(ws[2])));
+            show_ds(&a)
+        }
+        "ext" => {
+            let mut a = vh::datasets_new(&ids32(ws[1]));
+            vh::datasets_extend(&mut a, &ids32(ws[2]));
+            show_ds(&a)
+        }
         _ => "bad-op".into(),
     }
 }
@@ -17,7 +660,7 @@ fn main() {
     let a = args();
     match a.mode.as_str() {
         "gen" => gen(&a),
-        "exec" => exec_loop(|| (), step),
+        "exec" => exec_loop(St::default, step),
         _ => panic!("mode"),
     }
 }
